@@ -203,9 +203,11 @@ def _bfs_expand(chunk: list) -> list:
             w = m.build(hist)
             viol = []
             obs = None
+            raised = False
             try:
                 obs = m.apply(w, ev)
             except Exception as e:  # noqa: BLE001
+                raised = True
                 viol.append((f"exception:{type(e).__name__}:{_evname(ev)}", f"{type(e).__name__}: {e}"))
             d = digest(m.digest(w))  # before the oracle runs: the oracle may perturb w (it asks queries)
             try:
@@ -214,7 +216,8 @@ def _bfs_expand(chunk: list) -> list:
                 import traceback
                 viol.append((f"oracle-crash:{type(e).__name__}", traceback.format_exc()[-600:]))
             m.dispose(w)
-            out.append((d, hist + (i,), viol, digest(obs) if obs is not None else b""))
+            # a transition that raised is reported and its state is not expanded (replaying it would raise again)
+            out.append((None if raised else d, hist + (i,), viol, digest(obs) if obs is not None else b""))
     return out
 
 
@@ -251,7 +254,7 @@ def bfs(model: BfsModel, depth: int, jobs: int, chunk: int = 32, max_states: int
                     for key, what in viol:
                         if key not in violations:
                             violations[key] = Violation(key, what, {"history": [model.alphabet[j] for j in hist]})
-                    if d not in seen:
+                    if d is not None and d not in seen:
                         cand = level_new.get(d)
                         if cand is None or hist < cand:
                             level_new[d] = hist  # canonical representative: smallest history of this level
